@@ -65,7 +65,8 @@ def run_matrix(ctx, tasks, imgs):
     _CTX, _IMAGES = ctx, imgs
     # make sure the module environment is evaluated before forking
     ctx.world.env(M.MOD)
-    n = min(16, os.cpu_count() or 1, max(1, len(tasks) // 8))
+    n = min(int(os.environ.get('SA_POOL', '16')), os.cpu_count() or 1,
+            max(1, len(tasks) // 8))
     if n <= 1 or os.environ.get('SA_SERIAL'):
         return dict(_work(t) for t in tasks)
     mp = multiprocessing.get_context('fork')
